@@ -60,6 +60,9 @@ struct Plan {
     reconnect: bool,
     #[serde(default)]
     local_sends: u32,
+    /// some local sends towards the peer cannot be encoded and fail before anything is written
+    #[serde(default)]
+    local_bad_sends: bool,
     #[serde(default)]
     proc_stall_16: u32,
     #[serde(default)]
@@ -128,7 +131,7 @@ impl Scenario for C19 {
                 19 => "junk_marker",
                 20 => "junk_truncated",
                 21 => "gap",
-                22 => if r.chance(1, 2) { "gap" } else { "kill" },
+                22 => *r.pick(&["gap", "kill", "handover"]),
                 _ => "checkpoint",
             };
             let kind = if kind == "checkpoint" && r.chance(1, 4) { if r.chance(5, 6) { "junk_run" } else { "burst" } } else { kind };
@@ -156,6 +159,7 @@ impl Scenario for C19 {
             fatal: (*r.pick(&["", "", "overlong", "eof_in_frame", "close", "reset"])).to_string(),
             reconnect: r.chance(1, 2),
             local_sends: *r.pick(&[0u32, 0, 5, 20]),
+            local_bad_sends: r.chance(1, 3),
             proc_stall_16: *r.pick(&[0u32, 0, 4]),
             yield_intensity: *r.pick(&[0u32, 4, 10]),
             yield_mask: r.next_u64() | r.next_u64(),
@@ -196,7 +200,7 @@ impl Scenario for C19 {
             components_stubbed: &["TCP (SimNet)", "EPMD (stub)", "remote node (scripted peer, independent encoder)"],
             assumptions: &["mid-frame delays stay below the read timeout; only idle gaps are long", "the peer's ticks are what a conforming OTP node sends (zero-length frames at its tick period)"],
             fault_prefixes: &["fault.", "net."],
-            expected_probes: &["probe.c19.delivered_send", "probe.c19.delivered_reg_send", "probe.c19.delivered_exit", "probe.c19.delivered_mon_exit", "probe.c19.rpc_reply_delivered", "probe.c19.dropped_unknown_recipient", "probe.c19.survived_junk", "probe.c19.survived_quiet_period", "probe.c19.deregistered_after_fatal", "probe.c19.reconnected", "probe.c19.checkpoint_ok", "probe.c19.near_miss_not_taken_as_reply", "probe.c19.killed_process_prefix_ok", "probe.c19.long_junk_run", "probe.c19.burst_above_mailbox_capacity"],
+            expected_probes: &["probe.c19.delivered_send", "probe.c19.delivered_reg_send", "probe.c19.delivered_exit", "probe.c19.delivered_mon_exit", "probe.c19.rpc_reply_delivered", "probe.c19.dropped_unknown_recipient", "probe.c19.survived_junk", "probe.c19.survived_quiet_period", "probe.c19.deregistered_after_fatal", "probe.c19.reconnected", "probe.c19.checkpoint_ok", "probe.c19.near_miss_not_taken_as_reply", "probe.c19.killed_process_prefix_ok", "probe.c19.long_junk_run", "probe.c19.burst_above_mailbox_capacity", "probe.c19.local_operation_failed_without_io", "probe.c19.name_changed_hands"],
         }
     }
 }
@@ -234,6 +238,8 @@ struct Expect {
     /// processes that a local task was asked to kill while frames were in flight: for them only a
     /// prefix of the expected deliveries is required
     killed: Vec<bool>,
+    /// name i ("name<i>") currently belongs to this process (names change hands in 'handover' steps)
+    name_owner: Vec<usize>,
 }
 
 fn build_frame(p: &Plan, k: usize, f: &InFrame, pids: &[Val], rpc_from: &Option<Val>, exp: &mut Expect) -> Option<Vec<u8>> {
@@ -257,8 +263,11 @@ fn build_frame(p: &Plan, k: usize, f: &InFrame, pids: &[Val], rpc_from: &Option<
             let pl = payload("reg_send", k, f.seed);
             let named = (f.target as usize) < pids.len() && p.named_mask & (1 << f.target) != 0;
             let name = if named { format!("name{}", f.target) } else { "nobody_home".to_string() };
-            if named && alive(f.target) {
-                exp.per_proc[f.target as usize].push(Got::Regular(pl.clone()));
+            if named {
+                let owner = exp.name_owner[f.target as usize];
+                if alive(owner as u32) {
+                    exp.per_proc[owner].push(Got::Regular(pl.clone()));
+                }
             }
             wire::pass_through(&Val::tuple(vec![Val::int(6), peer_pid(1), Val::atom(""), Val::Atom(name)]), Some(&pl))
         }
@@ -485,6 +494,33 @@ async fn peer_conn(
                     let _ = kill_tx.send(t);
                 }
             }
+            "handover" => {
+                // name<t> is unregistered and registered for another live process; then its old owner is
+                // killed. Later messages to the name belong to the new owner.
+                let t = f.target as usize;
+                let named = t < pids.len() && p.named_mask & (1 << t) != 0;
+                let protected = if p.kill_first { 1 } else { 0 };
+                let (old, live): (usize, Vec<usize>) = {
+                    let e = exp.lock().unwrap();
+                    (if t < pids.len() { e.name_owner[t] } else { 0 }, (0..pids.len()).filter(|i| !(p.kill_first && *i == 0) && !e.killed[*i]).collect())
+                };
+                if named && live.contains(&old) && live.len() > 1 {
+                    // everything sent so far is routed under the old ownership
+                    tokio::time::sleep(Duration::from_millis(margin_ms(&p) + 500)).await;
+                    let new = *live.iter().find(|i| **i != old).unwrap();
+                    exp.lock().unwrap().name_owner[t] = new;
+                    w.stat("probe.c19.name_changed_hands");
+                    w.ev(format!("peer script: name{} goes from process {} to process {}", t, old, new));
+                    let _ = kill_tx.send(1000 + t * 100 + new * 10);
+                    tokio::time::sleep(Duration::from_millis(500)).await;
+                    if old != protected && live.len() > 2 {
+                        exp.lock().unwrap().killed[old] = true;
+                        w.stat("fault.process_killed_during_inbound_traffic");
+                        let _ = kill_tx.send(old);
+                        tokio::time::sleep(Duration::from_millis(1_500)).await;
+                    }
+                }
+            }
             "checkpoint" => {
                 let (a, b) = oneshot::channel();
                 if ckpt.send((k, a)).is_ok() {
@@ -554,7 +590,7 @@ async fn scenario(w: &Arc<World>, p: &Plan) {
             world: w.clone(),
             // with a burst in the plan every handler call takes a little (simulated) time, so the mailbox really fills
             stall_16: if has_burst { 16 } else { p.proc_stall_16 },
-            max_stall_ms: if has_burst { 2 } else if p.frames.iter().any(|f| f.kind == "kill") { 200 } else { 3 },
+            max_stall_ms: if has_burst { 2 } else if p.frames.iter().any(|f| f.kind == "kill" || f.kind == "handover") { 200 } else { 3 },
         };
         match node.spawn(rec).await {
             Ok(pid) => pids_ext.push(pid),
@@ -578,13 +614,22 @@ async fn scenario(w: &Arc<World>, p: &Plan) {
         }
     }
     let ps = Arc::new(Mutex::new(PeerShared { rpc_from: None, fatal_at_ms: None, script_done: false, sent_upto: 0, max_silence_ms: 0 }));
-    let exp = Arc::new(Mutex::new(Expect { per_proc: vec![Vec::new(); p.n_procs as usize], rpc_reply: None, killed: vec![false; p.n_procs as usize] }));
+    let exp = Arc::new(Mutex::new(Expect { per_proc: vec![Vec::new(); p.n_procs as usize], rpc_reply: None, killed: vec![false; p.n_procs as usize], name_owner: (0..p.n_procs as usize).collect() }));
     let (ck_tx, mut ck_rx) = mpsc::unbounded_channel::<(usize, oneshot::Sender<()>)>();
     let (kill_tx, mut kill_rx) = mpsc::unbounded_channel::<usize>();
     {
-        let (node_k, pids_k) = (node.clone(), pids_ext.clone());
+        let (node_k, pids_k, w_k) = (node.clone(), pids_ext.clone(), w.clone());
         tokio::spawn(async move {
             while let Some(t) = kill_rx.recv().await {
+                if t >= 1000 {
+                    let (name_i, new) = ((t - 1000) / 100, ((t - 1000) % 100) / 10);
+                    let name = Atom::new(format!("name{}", name_i));
+                    let _ = node_k.unregister(&name).await;
+                    if let Err(e) = node_k.register(name, pids_k[new].clone()).await {
+                        w_k.violation("name-not-reusable", format!("name{} was unregistered but cannot be registered for process {}: {}", name_i, new, e));
+                    }
+                    continue;
+                }
                 let _ = node_k.send(&pids_k[t], from_val(&poison())).await;
             }
         });
@@ -614,6 +659,7 @@ async fn scenario(w: &Arc<World>, p: &Plan) {
     // local traffic interleaved with the inbound frames
     let node_l = node.clone();
     let locals = p.local_sends;
+    let bad_sends = p.local_bad_sends;
     let live_target = pids_ext[if p.kill_first { 1 } else { 0 }].clone();
     let w_l = w.clone();
     let hist_l = hist.clone();
@@ -622,6 +668,17 @@ async fn scenario(w: &Arc<World>, p: &Plan) {
             let d = w_l.draw(200);
             tokio::time::sleep(Duration::from_millis(u64::from(d))).await;
             let _ = node_l.send(&live_target, from_val(&Val::tuple(vec![Val::atom("local"), Val::int(i128::from(k))]))).await;
+            if bad_sends && k % 4 == 1 {
+                // a local operation towards the peer that fails before anything is written (nothing can
+                // carry an atom of 70000 bytes): the connection is as healthy afterwards as before
+                let to = erltf::types::ExternalPid::new(Atom::new(PEER_NAME), 77, 0, 99);
+                let r = node_l.send(&to, OwnedTerm::Atom(Atom::new("x".repeat(70_000)))).await;
+                if r.is_err() {
+                    w_l.stat("probe.c19.local_operation_failed_without_io");
+                } else {
+                    w_l.violation("unencodable-accepted", "a message with an atom of 70000 bytes was sent".to_string());
+                }
+            }
             // unrelated local churn on the same node: spawn, register, look up, unregister
             if k % 3 == 0 {
                 let extra = Recorder { idx: 100 + k as usize, hist: hist_l.clone(), world: w_l.clone(), stall_16: 0, max_stall_ms: 0 };
